@@ -404,8 +404,28 @@ fn arg_list(large: bool, elem: BoxedStrategy<RArg>) -> BoxedStrategy<Vec<RArg>> 
                     continue;
                 }
                 let mut c = args[i - 1].clone();
-                match (t / 9) % 4 {
+                match (t / 9) % 8 {
                     0 => {}
+                    // relations between neighbours that differ: only the unit, only the scaling, a name that extends the
+                    // predecessor's name, a repeat of the first argument behind a different one
+                    4 => {
+                        if let Some(u) = &mut c.unit {
+                            u.push('x');
+                        }
+                    }
+                    5 => {
+                        if let Some((q, off)) = c.fixp {
+                            c.fixp = Some((q ^ 0x0040_0000, off.wrapping_add(1)));
+                        }
+                    }
+                    6 => {
+                        if let Some(n) = &mut c.name {
+                            n.push_str("_x");
+                        }
+                    }
+                    7 => {
+                        c = args[0].clone();
+                    }
                     1 => {
                         // zero of the other sign / other NaN payload in the value
                         c.val = match c.val {
